@@ -29,6 +29,9 @@ func genScript(r *rand.Rand, handler string, typ int, isHTTP bool, hasCID bool) 
 	} else if chance(r, 5) {
 		pre = append(pre, "status")
 	}
+	// a handler that sets a status only when the request says it is HTTP,
+	// as real handlers do (seeded change C07v: a stale HTTP flag)
+	pre = append(pre, "statusif")
 	switch typ {
 	case 1:
 		pre = append(pre, "chg:a")
